@@ -17,5 +17,5 @@ done
 git -C /repo status --short
 # the engines in .build/bin were built from the seeded tree last: rebuild them from the restored tree
 export GOFLAGS=-mod=mod GOPROXY=off GOSUMDB=off GOTOOLCHAIN=local
-(cd /verif/harness && for e in cmd/*; do go build -tags verif -o ../.build/bin/$(basename $e) ./$e; done)
+(cd /verif/harness && for e in cmd/*; do t=verif; [ $(basename $e) = replicadiff ] && t=verif,debug; go build -tags $t -o ../.build/bin/$(basename $e) ./$e; done)
 (cd /verif/extract && go run . -repo /repo -out ../lean/JivaVerif/Generated >/dev/null)
